@@ -1176,8 +1176,15 @@ type ZBadHolder struct {
 	M map[string]interface{}
 }
 
+// ZUnexported: reflection cannot read b
+type ZUnexported struct {
+	A int32
+	b string
+}
+
 func siC13(r *siReport) {
-	bads := map[string]interface{}{"chan": make(chan int), "func": func() {}, "complex": complex(1, 2), "uintptr-like-complex64": complex64(1), "nil-chan": (chan int)(nil)}
+	bads := map[string]interface{}{"chan": make(chan int), "func": func() {}, "complex": complex(1, 2), "uintptr-like-complex64": complex64(1), "nil-chan": (chan int)(nil),
+		"unexported-field": ZUnexported{A: 1, b: "x"}, "ptr-unexported-field": &ZUnexported{A: 2, b: "y"}}
 	var bnames []string
 	for k := range bads {
 		bnames = append(bnames, k)
@@ -1225,7 +1232,7 @@ func siC13(r *siReport) {
 			}
 		}
 	}
-	r.done("5 unsupported kinds (channel, function, complex128, complex64, nil channel) x 8 positions (top, field, list first/middle/last, nested list, map value, map in list)")
+	r.done("7 unrepresentable values (channel, function, complex128, complex64, nil channel, struct with an unexported field by value and by pointer) x 8 positions (top, field, list first/middle/last, nested list, map value, map in list)")
 }
 
 // ---------------------------------------------------------------- C14: hostile input
